@@ -87,16 +87,17 @@ def export_obj(mesh, path):
         if config.export_edges_in_obj:
             if not config.complete_edges_from_faces or mesh.dimensionality==1:
                 for a,b in mesh.edges:
-                    ofile.write(f'l {a+1} {b+1}\n')
+                    ofile.write(f'l {int(a)+1} {int(b)+1}\n')
             elif mesh.edges.has_attribute("hard_edges"):
                 for e in mesh.edges.get_attribute("hard_edges"):
                     a,b = mesh.edges[e]
-                    ofile.write(f'l {a+1} {b+1}\n')
+                    ofile.write(f'l {int(a)+1} {int(b)+1}\n')
 
         cnr_id = 1
         for face in mesh.faces:
             str_face = ""
             for vid in face:
+                vid = int(vid) # an index stored in a narrow numpy dtype must not wrap at vid+1
                 str_id = str(vid+1)
                 if has_texcoords_corners:
                     str_id+="/{}".format(cnr_id)
